@@ -151,6 +151,10 @@ def drv_c20(spec, S, variant):
         for code in _ford_code_objects():
             mon.set_local_events(tool, code, mon.events.LINE)
     sandbox = S.sandbox
+    if variant.get("rlimit_nofile"):
+        import resource
+        soft, hard = resource.getrlimit(resource.RLIMIT_NOFILE)
+        resource.setrlimit(resource.RLIMIT_NOFILE, (int(variant["rlimit_nofile"]), hard))
     try:
         sys.argv = list(spec["argv"])
         proj_data, proj_docs = ford.initialize()
@@ -181,6 +185,9 @@ def drv_c20(spec, S, variant):
         if tool is not None:
             for code in _ford_code_objects():
                 mon.set_local_events(tool, code, 0)
+        if variant.get("rlimit_nofile"):
+            # give the harness its descriptors back before it writes the result
+            resource.setrlimit(resource.RLIMIT_NOFILE, (soft, hard))
     out = {"accepted": accepted, "steps": steps[0], "crash": crash, "files": {}, "lists": {}}
     if crash is None:
         only = set(variant.get("dump_files") or [])
